@@ -49,7 +49,11 @@ Cases ==
         : c \in Curves3} \cup
     {[m |-> "closest", op |-> "mesh", name |-> ms.name, vpos |-> ms.vpos, faces |-> ms.faces, sc |-> (IF tf = 1 THEN -11 ELSE 0), tf |-> tf,
       caps |-> <<2, 4, 5, 8>>, angles |-> <<30, 45, 60>>, qs |-> QSeq(Thin(Window(ms.vpos, FALSE)))]
-        : ms \in Meshes, tf \in 0..2}
+        : ms \in Meshes, tf \in 0..2} \cup
+    \* the same meshes at a part size of a micrometre (2^-21): answers may not depend on absolute thresholds
+    {[m |-> "closest", op |-> "mesh", name |-> ms.name, vpos |-> ms.vpos, faces |-> ms.faces, sc |-> -21, tf |-> 0,
+      caps |-> <<2, 4, 5, 8>>, angles |-> <<30, 45, 60>>, qs |-> QSeq(Thin(Window(ms.vpos, FALSE)))]
+        : ms \in Meshes}
 
 Init == case \in Cases
 Next == UNCHANGED case
